@@ -768,7 +768,9 @@ func (rc *RegClient) imageCopyOpt(ctx context.Context, refSrc ref.Ref, refTgt re
 		} else {
 			if errors.Is(err, context.Canceled) {
 				// try to find a better error message than context canceled
-				err = <-waitCh
+				if errNew := <-waitCh; errNew != nil {
+					err = errNew
+				}
 			} else {
 				<-waitCh
 			}
@@ -922,7 +924,9 @@ func (rc *RegClient) imageCopyOpt(ctx context.Context, refSrc ref.Ref, refTgt re
 		} else {
 			if errors.Is(err, context.Canceled) {
 				// try to find a better error message than context canceled
-				err = <-waitCh
+				if errNew := <-waitCh; errNew != nil {
+					err = errNew
+				}
 			} else {
 				<-waitCh
 			}
